@@ -42,8 +42,8 @@ theorem getD_map_sh {R : Nat} (hR : 0 < R) (o : Option Nat) : (o.map (sh R)).get
   | some c => rfl
 
 theorem vanish_sh {R : Nat} (hR : 0 < R) (r : Rec) :
-    ({ shRec R r with isGenerated := false, failed := some 0 } : Rec)
-      = shRec R { r with isGenerated := false, failed := some 0 } := by
+    ({ shRec R r with isGenerated := false, isOverride := false, failed := some 0 } : Rec)
+      = shRec R { r with isGenerated := false, isOverride := false, failed := some 0 } := by
   simp [shRec, sh_zero hR]
 
 theorem mark_sh (R : Nat) (r : Rec) :
